@@ -15,7 +15,9 @@ SCall(s, e) == [SInit EXCEPT !.api = e.api, !.size = e.size, !.cb = e.cb, !.nfil
 
 \* a sync record decoded by the device from the host's WRITE payloads
 SPrx(s, e) ==
-  IF s.api # "push" THEN s
+  IF s.api # "push" THEN
+       \* the request record the device decoded must name exactly the path the caller gave (byte length, not character count)
+       (IF e.id \in {"RECV", "LIST", "STAT"} /\ ~e.specOk THEN SBad(s, IF s.api = "pull" THEN "C08.RequestPath" ELSE "C09.RequestPath") ELSE s)
   ELSE CASE e.id = "SEND" -> IF s.ph \notin {"idle", "done"} THEN SBad(s, "C07.Grammar")
                              ELSE IF ~e.specOk THEN SBad(s, "C07.SendSpec")
                              ELSE [s EXCEPT !.ph = "data", !.off = 0]
